@@ -232,3 +232,42 @@ def guarded_division(chk, cid, prog, p, cfgname):
         from ..run import AnalysisBroken
         raise AnalysisBroken('%s: %d divisions by rwork[] found, expected >= 2' % (f.name, n[0]))
     return n[0]
+
+
+def accumulator_init_rule(chk, cid, prog, p, cfgname):
+    """The BERR denominator |op(A)||x| + |b| is built in rwork[] inside the refinement loop: set to |b|, then the products are added.  Because the loop
+    runs once per iterate, the initialising store (one whose right-hand side does not read rwork[]) must be inside the `while (1)` loop and come
+    before the accumulating stores; hoisting it makes every later BERR use the sum over all iterates."""
+    f = prog.func(p + 'gsrfs')
+    n = 0
+    loops = [x for x in f.body.walk() if x.k == 'While' and const_value(x.c[0]) == 1]
+    inst = '%s:denominator-reinitialised-per-iterate' % f.name
+    if len(loops) != 1:
+        chk.violate(cid, inst, loc(f, f.body), f.name, 'cannot find the single `while (1)` refinement loop (found %d)' % len(loops), cfgname=cfgname)
+        return 1
+    lp = loops[0]
+
+    def stores(root):
+        out = []
+        for x in root.walk():
+            if x.k == 'Assign' and strip(x.c[0]).k == 'Index' and root_ref(x.c[0]) is not None and root_ref(x.c[0]).a.get('name') == 'rwork':
+                reads_self = x.a['op'] != '=' or any(y.k == 'Ref' and y.a.get('name') == 'rwork' for y in x.c[1].walk())
+                out.append((x, reads_self))
+        return out
+    inside = stores(lp.c[1])
+    init_in = [x for (x, rs) in inside if not rs]
+    acc_in = [x for (x, rs) in inside if rs]
+    # the error-bound part after the loop re-uses rwork for a different purpose; only the part up to the berr store matters
+    berr_line = min([x.line for x in lp.c[1].walk() if x.k == 'Assign' and strip(x.c[0]).k == 'Index' and root_ref(x.c[0]) is not None
+                     and root_ref(x.c[0]).a.get('name') == 'berr'] or [10 ** 9])
+    init_in = [x for x in init_in if x.line <= berr_line]
+    acc_in = [x for x in acc_in if x.line <= berr_line]
+    n += 1
+    if init_in and acc_in and min(x.line for x in init_in) < min(x.line for x in acc_in):
+        chk.ok(cid, inst, sample='%s ... then %d accumulating store(s)' % (pretty(init_in[0])[:50], len(acc_in)))
+    else:
+        chk.violate(cid, inst, loc(f, (acc_in or [lp])[0]), f.name,
+                    'inside the refinement loop rwork[] must be set to |b| (a store that does not read rwork[]) before |op(A)||x| is added to it; found %d '
+                    'initialising and %d accumulating store(s) before the BERR store: without the reset the denominator grows with every iterate and BERR is '
+                    'under-reported' % (len(init_in), len(acc_in)), cfgname=cfgname)
+    return n
